@@ -8,6 +8,7 @@ import (
 	"sort"
 	"strconv"
 	"strings"
+	"sync/atomic"
 	"time"
 
 	"github.com/quay/claircore"
@@ -16,7 +17,13 @@ import (
 	"github.com/quay/claircore/verifharness/internal/hx"
 )
 
-const callTimeout = 20 * time.Second
+const callTimeout = 10 * time.Second
+
+// hangs counts calls that did not return; after two the run stops generating
+// (every further hang would cost the full timeout).
+var hangs atomic.Int32
+
+func tooManyHangs() bool { return hangs.Load() >= 2 }
 
 // result of one call into the real code
 type result struct {
@@ -92,6 +99,7 @@ func call(w *world, procs int) result {
 	select {
 	case res = <-done:
 	case <-time.After(callTimeout):
+		hangs.Add(1)
 		return result{hang: true}
 	}
 	res.elapsed = time.Since(t0)
@@ -366,7 +374,11 @@ func oracle(w *world, res result) [][2]string {
 func runScenario(r *hx.Run, rnd *hx.Rand, sc *scenario, procs []int, tag string) {
 	var first string
 	for i, p := range procs {
+		if tooManyHangs() {
+			return
+		}
 		w := newWorld(sc, rnd.Fork())
+		inflight(fmt.Sprintf("gomaxprocs=%d scenario=[%s]", p, strings.Join(sc.lines(tag)[1:], " | ")))
 		res := call(w, p)
 		obs := canon(sc, res)
 		r.Count(fmt.Sprintf("gomaxprocs=%d", p))
